@@ -94,3 +94,18 @@ Proof.
   - repeat constructor; simpl; discriminate.
   - vm_compute. auto.
 Qed.
+
+(* The second tie: the admission decision of CheckTxState.AddTx (member set, per-sender limit
+   MaxTxsPerBlock, per-block nonce), regenerated from app/checktx.go on this run
+   (Generated/AppConsts.v), is the CheckTx code of the model. *)
+From Verif Require Import Generated.AppConsts Proofs.AppConsts.
+Theorem C10_translated_admission_agrees :
+  forall s signer chain nonce p,
+    bytes_eqb chain (chain_id s) = true -> nonce_used (nonces s) signer nonce = false ->
+    snd (check_tx s (Tx signer chain nonce p)) =
+    if gen_add_tx_ok (Z.of_nat (List.length (chk_members s))) (mem_addr signer (chk_members s))
+                     (match aget (chk_counts s) signer with Some c => c | None => 0%Z end)
+                     (negb (nonce_used (chk_nonces s) signer nonce))
+    then 0%N else 1%N.
+Proof. exact add_tx_agrees. Qed.
+Print Assumptions C10_translated_admission_agrees.
